@@ -449,9 +449,15 @@ def run(ctx):
     good = [p_ for p_ in paths if real_part_id(p_)]
     lists = [[rng.choice(good) for _ in range(rng.choice([0, 1, 2, 5]))] + ([rng.choice(paths)] if rng.random() < 0.2 else [])
              for _ in range(100 if ctx.quick() else 1000)]
-    mo = pq.batch([("find_max_part", [p_.encode() for p_ in l]) for l in lists])
+    # (repo fix 59b66a8: api.part_ids ignores references that are not named part.<i>.parquet -> FsPaths.find_max_part_skip;
+    #  on lists of matching names it is FsPaths.find_max_part, theorem C19_find_max_part_skip_agrees)
+    mo = pq.batch([("find_max_part_skip", [p_.encode() for p_ in l]) for l in lists])
     for l, m in zip(lists, mo):
-        ctx.correspondence("FsPaths.find_max_part ~ writer.find_max_part", {"paths": l}, m, real_find_max_part(l))
+        ctx.correspondence("FsPaths.find_max_part_skip ~ writer.find_max_part", {"paths": l}, m, real_find_max_part(l))
+    good_lists = [l for l in lists if all(real_part_id(p_) for p_ in l)]
+    mo = pq.batch([("find_max_part", [p_.encode() for p_ in l]) for l in good_lists])
+    for l, m in zip(good_lists, mo):
+        ctx.correspondence("FsPaths.find_max_part ~ writer.find_max_part (references all named part.<i>.parquet)", {"paths": l}, m, real_find_max_part(l))
     model_trace = {"equal": 0, "different": 0, "examples": []}
     strict = {"true": 0, "false": 0}
     sym_info = {"true": 0, "false": 0}
